@@ -19,7 +19,7 @@
 //! extends modes: s static name, d name from a variable, c `{% if c0/c1 %}`, q `{% if 3 is number/string %}` (decided by a test)
 //! arg     := kind k cand..    kind: str sc lit tup ctx slice rev lazy once rep map ctxmap pobj plain
 //! cand    := t (the string naming template t) | "!i" (42) | "!n" (none) | "!u" (undefined) | "!b" (true)
-//! fam     := name [ "~" L S P U B ]   (configuration, see `Cfgv`)
+//! fam     := name [ "~" L S P U B N ]   (configuration, see `Cfgv`; N = shape of the variable names)
 //!
 //! Result: `ok:<output>` | `err:<kind chain>` | `panic` | `hang` | `crash:<status>` | `syntax:<kind>`
 //! | `skipped` (after three hangs the remaining cases are not run).
@@ -501,6 +501,8 @@ struct Cfgv {
     pathjoin: bool,
     ub: u8,
     blk: usize,
+    /// shape of the variable / macro names: 0 `v3`, 1 `_v3` (leading underscore), 2 `V3_`
+    names: u8,
 }
 
 fn cfg_of(fam: &str) -> Cfgv {
@@ -513,6 +515,7 @@ fn cfg_of(fam: &str) -> Cfgv {
                 pathjoin: d.get(2) == Some(&1),
                 ub: d.get(3).copied().unwrap_or(0).min(3),
                 blk: d.get(4).copied().unwrap_or(0).min(2) as usize,
+                names: d.get(5).copied().unwrap_or(0).min(2),
             }
         }
         None => Cfgv::default(),
@@ -737,7 +740,52 @@ fn print_items(pr: &Pr, t: &Tmpl, items: &[Item], used: &mut Vec<usize>, out: &m
     }
 }
 
+/// the canonical names `v<n>` rewritten into the configured shape (`shape` 1: `_v<n>`, 2: `V<n>_`);
+/// `back` = the inverse, applied to what the engine printed (module keys, macro reprs)
+fn rename_vars(src: &str, shape: u8, back: bool) -> String {
+    if shape == 0 {
+        return src.to_string();
+    }
+    let (from_pre, from_suf, to_pre, to_suf) = match (shape, back) {
+        (1, false) => ("v", "", "_v", ""),
+        (1, true) => ("_v", "", "v", ""),
+        (_, false) => ("v", "", "V", "_"),
+        (_, true) => ("V", "_", "v", ""),
+    };
+    let cs: Vec<char> = src.chars().collect();
+    let word = |c: char| c.is_alphanumeric() || c == '_';
+    let mut out = String::with_capacity(src.len() + 16);
+    let mut i = 0;
+    while i < cs.len() {
+        // in what the engine printed a name may touch its neighbours (`M&2` + `_v2`): no boundaries there
+        let at_boundary = back || i == 0 || !word(cs[i - 1]);
+        let pre: Vec<char> = from_pre.chars().collect();
+        if at_boundary && cs[i..].starts_with(&pre) {
+            let mut j = i + pre.len();
+            let d0 = j;
+            while j < cs.len() && cs[j].is_ascii_digit() {
+                j += 1;
+            }
+            let suf: Vec<char> = from_suf.chars().collect();
+            if j > d0 && cs[j..].starts_with(&suf) && (back || j + suf.len() == cs.len() || !word(cs[j + suf.len()])) {
+                out.push_str(to_pre);
+                out.extend(&cs[d0..j]);
+                out.push_str(to_suf);
+                i = j + suf.len();
+                continue;
+            }
+        }
+        out.push(cs[i]);
+        i += 1;
+    }
+    out
+}
+
 fn source_of(pr: &Pr, t: &Tmpl) -> String {
+    rename_vars(&source_of_canonical(pr, t), pr.cfg.names, false)
+}
+
+fn source_of_canonical(pr: &Pr, t: &Tmpl) -> String {
     let mut out = String::new();
     let mut used = vec![];
     print_items(pr, t, &t.layout, &mut used, &mut out);
@@ -807,14 +855,15 @@ fn context(pr: &Pr) -> Value {
     let mut ctx: BTreeMap<String, Value> = BTreeMap::new();
     ctx.insert("c1".into(), Value::from(true));
     ctx.insert("c0".into(), Value::from(false));
-    ctx.insert("v0".into(), Value::from(V0));
-    let _ = pr;
+    ctx.insert(rename_vars("v0", pr.cfg.names, false), Value::from(V0));
     Value::from(ctx)
 }
 
+static NAME_SHAPE: std::sync::atomic::AtomicU8 = std::sync::atomic::AtomicU8::new(0);
+
 fn res_of(r: Result<String, Error>) -> (String, String) {
     match r {
-        Ok(s) => (format!("ok:{s}"), "ok".to_string()),
+        Ok(s) => (format!("ok:{}", rename_vars(&s, NAME_SHAPE.load(std::sync::atomic::Ordering::SeqCst), true)), "ok".to_string()),
         Err(e) => (format!("err:{}", kind_chain(&e)), innermost_detail(&e)),
     }
 }
@@ -1067,6 +1116,7 @@ fn recovery_stream(env: &Environment<'static>, main: &str, pr: &Pr) -> String {
 /// * `new_state().render_block("b<B>")`.
 fn run_case(c: &Case, variant: usize) -> Outcome {
     let cfg = cfg_of(&c.fam);
+    NAME_SHAPE.store(cfg.names, std::sync::atomic::Ordering::SeqCst);
     let pr = Pr { exts: c.tmpls.iter().map(|t| t.ext.as_str()).collect(), cfg };
     let mut sources: Vec<(String, String, Option<char>)> = c
         .tmpls
@@ -2604,12 +2654,17 @@ fn recovery_families(out: &mut Vec<Case>) {
     }
 }
 
-/// sprinkles pure filter / test expressions (hidden or not) and fuses over a random chain: any
-/// template, layout or block body, bare or wrapped in a loop / macro call / autoescape block
+/// sprinkles pure filter / test expressions (hidden or not) and fuses over a random chain and the
+/// templates it includes / imports: any template, layout or block body, bare or wrapped in a loop / macro call / autoescape block
 fn decorate(rng: &mut Rng, c: &mut Case, len: usize) {
     let kind = if rng.chance(1, 2) { 'f' } else { 't' };
-    for j in 0..len {
+    for j in 0..c.tmpls.len() {
         let t = &mut c.tmpls[j];
+        // templates that cannot be loaded and pruned stubs stay as they are; the templates a
+        // chain includes / imports get expressions and fuses of their own, less often
+        if t.ext.contains('!') || (t.layout.is_empty() && t.blocks.is_empty()) || (j >= len && !rng.chance(1, 2)) {
+            continue;
+        }
         let n = rng.below(4) as usize;
         for _ in 0..n {
             let hide = match rng.below(5) {
@@ -2721,9 +2776,14 @@ fn cases(tier: &str) -> Vec<Case> {
             _ => 0,
         };
         let b = h.below(3);
+        let nshape = match h.below(6) {
+            0 => 1,
+            1 => 2,
+            _ => 0,
+        };
         // templates that cannot be loaded only exist behind a loader
         let l = if c.tmpls.iter().any(|t| t.ext.contains('!')) { 1 } else { l };
-        c.fam = format!("{}~{l}{sy}{p}{u}{b}", c.fam);
+        c.fam = format!("{}~{l}{sy}{p}{u}{b}{nshape}", c.fam);
         let exts: Vec<String> = c.tmpls.iter().map(|t| t.ext.clone()).collect();
         let pr = Pr { exts: exts.iter().map(|e| e.as_str()).collect(), cfg: cfg_of(&c.fam) };
         for t in c.tmpls.iter_mut() {
